@@ -765,3 +765,59 @@ def check_link_ownership(chk, m, K, rule="S11.link-owned-by-list"):
     chk.ob(rule, "fibre.c", True, "%d writes into fibre descriptors outside the initialisers examined: none covers link.next "
            "(initialisers writing it: %d, %s)" % (n_writes - exempt_seen, exempt_seen, ", ".join(sorted(LINK_WRITERS_EXEMPT))), "", "")
     chk.expect(rule.split(".")[0], "writes into fibre descriptors examined for link ownership", n_writes, 4)
+
+
+# ---------------------------------------------------------------------------------------------
+# every dispatching pass runs the expiry walk
+# ---------------------------------------------------------------------------------------------
+
+def must_call(m, fname, target, _seen=None):
+    """Does every (non-assertion) path of `fname` call `target`, directly or through a unit function that always does?"""
+    _seen = _seen or set()
+    if fname in _seen or not m.has_fn(fname) or not m.fn(fname).blocks:
+        return False
+    _seen = _seen | {fname}
+    fn = m.fn(fname)
+    try:
+        ps = [p for p in paths.enumerate_paths(fn, m, loop_bound=1, call_effects=EFFECTS) if not paths.is_assert_fail_path(p)]
+    except AnalysisError:
+        return False
+    for p in ps:
+        names = [callee_name(e) for k, e in calls_on(p)]
+        if target in names:
+            continue
+        if any(n_ != target and m.has_fn(n_) and must_call(m, n_, target, _seen) for n_ in set(names)):
+            continue
+        return False
+    return bool(ps)
+
+
+def check_expiry_every_pass(chk, m, K, rule="T3.expiry-every-pass"):
+    """A pass of fibre_scheduler_next that goes on to pop and dispatch has run the expiry walk (handle_timerq) - itself or through a
+    callee that runs it on every path.  A pass that takes one expired fibre straight off the timer queue and leaves the others
+    there lets later-queued fibres overtake timeouts that were already due ("becomes runnable in the first pass at or after d")."""
+    fn, ps = fn_paths(m, "fibre_scheduler_next")
+    n = 0
+    for p in ps:
+        names = [callee_name(e) for k, e in calls_on(p)]
+        if "<indirect>" not in names or "get_next_task" not in names:
+            continue
+        if _skips_expiry_legitimately(p, K, m):
+            continue
+        n += 1
+        before = names[:names.index("<indirect>")]
+        ok = "handle_timerq" in before or any(n_ != "handle_timerq" and m.has_fn(n_) and must_call(m, n_, "handle_timerq") for n_ in set(before))
+        chk.ob(rule, "fibre_scheduler_next " + "->".join(b.lstrip("%") for b in p.blocks)[-90:], ok,
+               "the expiry walk runs (directly or inside a callee, on every path of it) before the pass dispatches" if ok else
+               "this pass can dispatch without having run the expiry walk: some path through %s reaches the dispatch with handle_timerq "
+               "never called, so fibres whose timeouts have expired stay on the timer queue for this pass and are overtaken"
+               % ", ".join(sorted(set(before) - {"<indirect>"})), p.ret_inst.loc, fn.name)
+    chk.expect(rule.split(".")[0], "dispatching slow-path passes examined for the expiry walk", n, 1)
+
+
+def _skips_expiry_legitimately(p, K, m):
+    try:
+        from . import C01
+        return C01._no_time_has_passed(p, K, m)
+    except Exception:
+        return False
